@@ -374,6 +374,7 @@ package stake
 //@   assert@call(selectValidators,0): $arg0 == ctrler.allDelegatees && $arg1 == maxVals                        [C10]
 //@   assert@call(validatorUpdates,0): $arg0 == ctrler.lastValidators && $arg1 == newValidators                [C10]
 //@   assert@store(StakeCtrler.lastValidators,0): $target == ctrler && $value == newValidators                 [C10]
+//@   ensures arr(ctrler.lastValidators) == old(arr(ctrler.allDelegatees)) && off(ctrler.lastValidators) == old(off(ctrler.allDelegatees)) && len(ctrler.lastValidators) == min(old(len(ctrler.allDelegatees)), maxVals)   [C10]
 
 // ---- queries (C19, C06): the state read is the one committed at the requested height, through a fresh
 // historical view; no overlay, ledger or controller state is written
@@ -391,3 +392,22 @@ package stake
 //@   assert@call(Read,0): immuheight[$target] == req.Height && $arg0 == lkey(content(req.Data))               [C19]
 //@   assert@call(Read,1): immuheight[$target] == req.Height && $arg0 == lkey(content(req.Data))               [C19]
 //@   loop 0: invariant true
+
+// the aggregation callbacks of the power queries (C11: the total-power queries equal the corresponding sums):
+// stakes/total_power adds the total power of every delegatee of the view, unconditionally;
+// stakes/voting_power collects exactly the validator candidates (own stake at least the governance minimum)
+//@ func (ctrler *StakeCtrler) Query__2(d)
+//@   nopanic
+//@   requires d != nil
+//@   modifies cell(retPower)
+//@   ensures result == nil && retPower == old(retPower) + d.TotalPower                                         [C11,C19]
+
+//@ func (ctrler *StakeCtrler) Query__3(d)
+//@   nopanic
+//@   requires d != nil
+//@   assumes ctrler != nil && ctrler.govParams != nil
+//@   modifies cell(delegatees), elems(delegatees)
+//@   allocates []*Delegatee
+//@   ensures result == nil
+//@   ensures d.SelfPower >= govMinValPower[ctrler.govParams] ==> len(delegatees) == old(len(delegatees)) + 1 && delegatees[old(len(delegatees))] == d   [C10,C19]
+//@   ensures d.SelfPower < govMinValPower[ctrler.govParams] ==> len(delegatees) == old(len(delegatees))       [C10,C19]
